@@ -37,14 +37,17 @@ META = {
             "k / n / radius / voxel sizes derived from the cloud's own distance spectrum incl. exact hits of the radius and "
             "of cell boundaries on fixed-point clouds, dtype float32/float64, batch shapes where documented); points are "
             "shuffled so that outliers sit at arbitrary positions; hand-made corner clouds first (1..3 points, one voxel, "
-            "nothing retained, #retained <= k), then a FIXED-SEED CORPUS of 817 cases independent of VERIF_SEED (per stream "
+            "nothing retained, #retained <= k), then a FIXED-SEED CORPUS of 1113 cases independent of VERIF_SEED (per stream "
             "ord x dtype x kind crossed with: magnitudes 2^-400..2^400 (f32: 2^-40..2^30), exact radius hits / 0 / inf, "
             "duplicates, k >= 17 and N2 > 40, every flag combination, memory layouts cols/rows/transposed/expanded, one "
             "tensor in two roles, mixed-regime batches, RNG extremes, 36 call histories on caller-held tensors with one "
             "argument varied per call, failing calls and in-place updates between calls; pass 2: every call style x grad mode "
             "/ input type, integer clouds, tuple / int arguments, N, D, k, batch in {1,2,3}, radius and cell size just above / "
             "below / far from the point spacing; every corpus case also checks that results own their memory), then seeded "
-            "cases; quick: 80 knn + 90 nbr + 90 voxel + 90 knn_filter + 35 random_filter + 80 camera + 35 homo + 10 histories (+20% later calls with the "
+            "cases; pass 4: sizes 2^14+1 / 2^16+1 per entry point (2^10+1, 2^11+1 for the quadratic ones) with vectorised exact oracles and "
+            "split-consistency, mode / default-dtype sequences on fresh keys, user Tensor subclass, default dtype float64 x cloud dtype, "
+            "numpy scalars and refilled numpy size vectors, negative radius, all-negative sizes, clouds <= 0; "
+            "quick: 50 knn + 60 nbr + 60 voxel + 60 knn_filter + 25 random_filter + 50 camera + 25 homo + 8 histories (+20% later calls with the "
             "same shapes), thorough: about 12x that; every case goes to "
             "the exact integer oracle, all but the largest clouds beyond a per-stream budget also to the 192-bit Lean model; "
             "a case is non-trivial when N >= 2 and distinct by (stream, kind, N-bucket, dims, ord, k/n bucket, flags, dtype, "
@@ -152,7 +155,13 @@ import contextlib
 import types
 
 STYLES = ["kw", "kw", "min", "pos", "mix", "kwreq"]
-GMODES = [None] * 6 + ["req", "nograd", "inference", "graph", "param"]
+GMODES = [None] * 6 + ["req", "nograd", "inference", "graph", "param", "subclass"]
+_STATE = {"backward": False}
+
+
+class UserCloud(torch.Tensor):
+    """a user's own Tensor subclass (class 21): the functions must treat it by its values"""
+    pass
 REQ_NAMES = {"knn": ("ref", "nbr"), "nbr_filter": ("points", "nbr", "radius"), "voxel_filter": ("points", "voxel"),
              "knn_filter": ("points", "k"), "random_filter": ("points", "num"), "point2pixel": ("points", "intrinsics"),
              "pixel2point": ("pixels", "depth", "intrinsics"), "reprojerr": ("points", "pixels", "intrinsics")}
@@ -168,7 +177,7 @@ def same_arg(v, d):
 
 def detach_all(r):
     if isinstance(r, torch.Tensor):
-        return r.detach()
+        return r.detach().as_subclass(torch.Tensor) if type(r) is UserCloud else r.detach()
     if hasattr(r, "values") and hasattr(r, "indices") and isinstance(r, tuple):
         return types.SimpleNamespace(values=r.values.detach(), indices=r.indices.detach())
     if isinstance(r, tuple):
@@ -191,6 +200,12 @@ def styled(name, style, req, opt):
         r = fn(**dict(zip(REQ_NAMES[name], req)), **{n_: v for n_, v, _ in opt})
     else:
         r = fn(*req, **{n_: v for n_, v, _ in opt})
+    if _STATE["backward"]:
+        # the call is part of an autograd graph: it must be differentiable NOW, whatever mode earlier calls ran in
+        outs_ = [r] if isinstance(r, torch.Tensor) else [q_ for q_ in r if isinstance(q_, torch.Tensor)] if isinstance(r, tuple) else []
+        for q_ in outs_:
+            if q_.is_floating_point() and q_.requires_grad and q_.numel() > 0:
+                q_.sum().backward(retain_graph=True)
     return detach_all(r)
 
 
@@ -205,6 +220,8 @@ def prep(x, case):
         return x.clone().requires_grad_() * 1.0
     if gm == "param":
         return torch.nn.Parameter(x.clone())
+    if gm == "subclass":
+        return x.clone().as_subclass(UserCloud)
     return x
 
 
@@ -219,9 +236,16 @@ def mode_ctx(case):
 
 def as_scalar(v, case):
     """radius / sizes the way a caller may write them: a python int when the value is integral"""
+    if case.get("np_scalars") and isinstance(v, float):
+        return np.float32(v) if case.get("dtype") == "float32" and float(np.float32(v)) == v else np.float64(v)   # numpy scalar
     if case.get("int_scalars") and isinstance(v, float) and math.isfinite(v) and v == int(v) and abs(v) < 2 ** 40:
         return int(v)
     return v
+
+
+def as_int(v, case):
+    """k / n / num / pdim the way a numpy user passes them"""
+    return np.int64(v) if case.get("np_scalars") and isinstance(v, int) and not isinstance(v, bool) else v
 
 
 def owns_memory(ctx, case, label, outs, inputs, recall):
@@ -273,6 +297,7 @@ def owns_memory(ctx, case, label, outs, inputs, recall):
 
 # ============================================================================ cloud construction
 
+_NPBUF = {}   # caller-held numpy buffers for scalar-vector arguments (voxel sizes), refilled in place between calls
 _KEPT = {}    # history stream: tensors held by the caller across calls: key -> {"x": typed tensor, "nb": bumps applied}
 _BASES = []   # (buffer, snapshot) of every larger buffer a view was cut from during the current check
 
@@ -287,6 +312,16 @@ def build_cloud(case, item=0, which="pts"):
     N = case["N"] if which == "pts" else case["N2"]
     x = U.gen_cloud(r, N, case["pdim"], case.get("extra", 0), kind, case["dtype"])
     m = mags[item % len(mags)] if mags else case.get("mag_exp", 0)
+    sh = case.get("shift")
+    if sh in ("neg", "max0") and x.numel():
+        pdc = case["pdim"]
+        top = x[:, :pdc].amax(0, keepdim=True)
+        x = x.clone()
+        x[:, :pdc] = x[:, :pdc] - top - (top.abs() + 1 if sh == "neg" else 0)    # exact on fixed-point clouds
+        if case["dtype"] == "float32":
+            x = x.to(torch.float32).double()
+    elif sh == "zero":
+        x = torch.zeros_like(x)
     if case["dtype"].startswith("int"):
         return torch.round(x * 64).clamp(-2.0 ** 20, 2.0 ** 20)      # integer-dtype cloud
     if m:
@@ -341,12 +376,21 @@ def kept(case, which="pts"):
     ent = _KEPT.get(key)
     if ent is None:
         c0 = case["obj"] if which == "pts" or case.get("alias") else case["obj2"]
-        ent = {"x": build_cloud(c0).to(U.DT[c0["dtype"]]).clone(), "nb": 0, "seed": c0["data_seed"]}
+        x0 = build_cloud(c0).to(U.DT[c0["dtype"]]).clone()
+        ent = {"x": x0, "nb": 0, "seed": c0["data_seed"], "np": None}
+        if c0.get("numpy"):
+            ent["np"] = x0.numpy().copy()                 # the caller's own numpy buffer
+            ent["x"] = torch.from_numpy(ent["np"])        # a tensor sharing its memory (no copy)
         _KEPT[key] = ent
     want = case.get("bump" if which == "pts" or case.get("alias") else "bump2", 0)
     while ent["nb"] < want:
         ent["nb"] += 1
-        apply_bump(ent["x"], ent["nb"], ent["seed"])
+        if ent["np"] is None:
+            apply_bump(ent["x"], ent["nb"], ent["seed"])
+        else:
+            tmp = ent["x"].clone()
+            apply_bump(tmp, ent["nb"], ent["seed"])
+            ent["np"][...] = tmp.numpy()                  # refilled through numpy: the tensor's version counter does not move
     return ent["x"]
 
 
@@ -401,9 +445,11 @@ def choose_radius(r: random.Random, K, s, ord_, dtype, exact, mode=None):
         rad = r.choice([0.0, 1.0, 0.5])
     else:
         if mode is None and r.random() < 0.25:
-            mode = r.choice(["hit+", "hit-", "hit+", "hit-", "farbelow", "farabove"])
+            mode = r.choice(["hit+", "hit-", "hit+", "hit-", "farbelow", "farabove", "neg"])
         c = {"hit": 0.0, "mid": 0.5, "below": 0.8, "above": 0.9, "zero": 0.99}.get(mode, r.random())
         j = r.randrange(len(sp))
+        if mode == "neg":
+            return -float(torch.tensor(key_to_radius(sp[j], s, ord_), dtype=U.DT[dtype])) or -1.0
         if mode in ("hit+", "hit-", "farbelow", "farabove"):
             # spacing relative to the threshold: just above / just below a distance that occurs (either sign, far
             # outside the rounding band), and radii far below the smallest / far above the largest spacing
@@ -507,7 +553,7 @@ def check_knn(ctx: Ctx, case, jobs: Jobs | None = None) -> bool:
     style = "min" if case.get("defaults") else case.get("style", "kw")
 
     def KNN(a_, b_):
-        return styled("knn", style, (a_, b_), [("k", k, 1), ("ord", U.ord_arg(o), 2), ("dim", -1, -1),
+        return styled("knn", style, (a_, b_), [("k", as_int(k, case), 1), ("ord", U.ord_arg(o), 2), ("dim", -1, -1),
                                                ("largest", largest, False), ("sorted", is_sorted, True)])
     try:
         res = mon.call("knn", KNN, ref, nbr)
@@ -680,7 +726,8 @@ def check_nbr(ctx: Ctx, case, jobs: Jobs | None = None) -> bool:
     rad_arg = as_scalar(radius, case)
 
     def NBR(x_, rm):
-        return styled("nbr_filter", style, (x_, n, rad_arg), [("pdim", pdim, None), ("ord", U.ord_arg(o), 2), ("return_mask", rm, False)])
+        return styled("nbr_filter", style, (x_, as_int(n, case), rad_arg),
+                      [("pdim", as_int(pdim, case), None), ("ord", U.ord_arg(o), 2), ("return_mask", rm, False)])
     try:
         out, mask = mon.call("nbr_filter", lambda x_: NBR(x_, True), X)
         out2 = NBR(X, False)
@@ -701,6 +748,10 @@ def check_nbr(ctx: Ctx, case, jobs: Jobs | None = None) -> bool:
         return False
     out, mask = out_keep, mask_keep
     lo, hi, K, d, s, exact = nbr_oracle(case, X64, radius, o, pd)
+    if radius < 0:
+        # theorem nbr_filter_neg_radius: nothing (not even the point itself) is within a negative radius, count = -1
+        lo = hi = np.full(case["N"], -1)
+        ctx.count("nbr.negative-radius")
     if exact:
         ctx.count("nbr.exact-arithmetic-clouds")
     if nbr_oracle.last_hits:
@@ -836,9 +887,17 @@ def check_voxel(ctx: Ctx, case, jobs: Jobs | None = None) -> bool:
     vform = case.get("vox_form", "list")
     vox_arg = [as_scalar(v_, case) for v_ in vox]
     vox_arg = tuple(vox_arg) if vform == "tuple" else vox_arg
+    if vform in ("np32", "np64"):
+        buf = _NPBUF.setdefault((vform, len(vox)), np.zeros(len(vox), dtype=np.float32 if vform == "np32" else np.float64))
+        buf[...] = vox                      # the caller re-uses one numpy buffer for the sizes
+        vox_arg = buf
 
     def VOX(x_, rnd_):
-        return styled("voxel_filter", style, (x_, type(vox_arg)(vox_arg)), [("random", rnd_, False)])
+        va = vox_arg if isinstance(vox_arg, np.ndarray) else type(vox_arg)(vox_arg)
+        r_ = styled("voxel_filter", style, (x_, va), [("random", rnd_, False)])
+        if isinstance(vox_arg, np.ndarray) and not np.array_equal(vox_arg, np.asarray(vox, dtype=vox_arg.dtype)):
+            raise AssertionError("voxel_filter modified the caller's numpy array of voxel sizes")
+        return r_
     if not case["random"]:
         mon = common.PurityMonitor()
         try:
@@ -1011,7 +1070,8 @@ def check_knnf(ctx: Ctx, case, jobs: Jobs | None = None) -> bool:
     rad_arg = as_scalar(radius, case)
 
     def KNNF(x_):
-        return styled("knn_filter", style, (x_, k), [("pdim", pdim, None), ("radius", rad_arg, None), ("ord", U.ord_arg(o), 2)])
+        return styled("knn_filter", style, (x_, as_int(k, case)),
+                      [("pdim", as_int(pdim, case), None), ("radius", rad_arg, None), ("ord", U.ord_arg(o), 2)])
     mon = common.PurityMonitor()
     try:
         out = mon.call("knn_filter", KNNF, x)
@@ -1054,6 +1114,8 @@ def check_knnf(ctx: Ctx, case, jobs: Jobs | None = None) -> bool:
             keep = list(range(N))
         else:
             lo, hi, *_ = nbr_oracle(case, X64, radius, o, pd)
+            if radius < 0:
+                lo = hi = np.full(N, -1)
             if any(lo[i] != hi[i] and (lo[i] < k <= hi[i]) for i in range(N)):
                 ctx.count("knnf.ambiguous-skipped")
                 return True
@@ -1153,7 +1215,7 @@ def check_randf(ctx: Ctx, case, jobs: Jobs | None = None) -> bool:
     style = case.get("style", "kw")
 
     def RF(x_):
-        return styled("random_filter", style, (x_, num), [])
+        return styled("random_filter", style, (x_, as_int(num, case)), [])
 
     def RF_again():
         if mode == "real":
@@ -1257,12 +1319,20 @@ def gen_camera(case):
     if case.get("zmode") == "ladder":
         z = rnd(bp + (n,), lambda: lad(r, zlo, 3 + sp))
         pts[..., 2] = z
+    elif case.get("zmode") == "tiny":
+        tn = U.TINY[d]      # depth exactly +-tiny, 2 tiny, 0: the clamp of homo2cart, with x, y of the same tiny scale
+        pts = rnd(bp + (n, 3), lambda: r.choice([1.0, -3.0, 17.0, 0.0, 64.0])) * tn
+        pts[..., 2] = rnd(bp + (n,), lambda: r.choice([1.0, -1.0, 2.0, -2.0, 0.0, 1.0])) * tn
     K = torch.zeros(bk + (3, 3), dtype=torch.float64)
     K[..., 0, 0] = rnd(bk, lambda: lad(r, -1 - sp, 3 + sp))
     K[..., 1, 1] = rnd(bk, lambda: lad(r, -1 - sp, 3 + sp))
     K[..., 0, 2] = rnd(bk, lambda: lad(r, -1 - sp, 3 + sp) if r.random() < 0.9 else 0.0)
     K[..., 1, 2] = rnd(bk, lambda: lad(r, -1 - sp, 3 + sp) if r.random() < 0.9 else 0.0)
     K[..., 2, 2] = 1.0
+    if case.get("focal"):
+        K[..., 0, 0], K[..., 1, 1] = case["focal"]
+    if case.get("center_equal"):
+        K[..., 1, 2] = K[..., 0, 2]
     if case.get("general_K"):
         K[..., 0, 1] = rnd(bk, lambda: lad(r, -2, 1))
         K[..., 1, 0] = rnd(bk, lambda: lad(r, -2, 1))
@@ -1362,10 +1432,14 @@ def check_camera(ctx: Ctx, case, jobs: Jobs | None = None) -> bool:
     h = torch.einsum("bij,bnj->bni", KB, pc)
     A = torch.einsum("bij,bnj->bni", KB.abs(), Pmag)
     den = h[..., 2]
+    if not case.get("general_K"):
+        # pinhole last row: den is the camera-frame depth itself; |depth| <= tiny is clamped to +-tiny (pm(0) = +1)
+        den = torch.where(den < 0, -1.0, 1.0) * den.abs().clamp(min=tiny)
     want = h[..., :2] / den.unsqueeze(-1)
     tolu = 64 * eps * (A[..., :2] / den.abs().unsqueeze(-1) + want.abs() * (A[..., 2] / den.abs()).unsqueeze(-1)) \
         + 64 * eps * want.abs()
-    okmask = (den.abs() > 4 * tiny) & (A[..., 2] / den.abs() < 1e-3 / eps)
+    okmask = ((den.abs() > 4 * tiny) | (torch.tensor(not case.get("general_K")) & (ext is None))) & (A[..., 2] / den.abs() < 1e-3 / eps) \
+        & torch.isfinite(want.to(T)).all(-1)
     bad = far(uvB, want, tolu) & okmask.unsqueeze(-1)
     if bool(bad.any()):
         b, i, c = [int(v) for v in bad.nonzero()[0]]
@@ -1412,6 +1486,9 @@ def check_camera(ctx: Ctx, case, jobs: Jobs | None = None) -> bool:
             ctx.fail(case, f"camera-raises: reprojerr raises on a valid call: {type(e).__name__}: {str(e)[:120]}")
             return False
         wshape = tuple(bshape) + ((n, 2) if red == "none" else (n,))
+        if e0.dtype != T:
+            ctx.fail(case, f"camera-shape: reprojerr({red}) returns dtype {e0.dtype} for {T} input (default dtype {torch.get_default_dtype()})")
+            return False
         if tuple(e0.shape) != wshape:
             ctx.fail(case, f"camera-shape: reprojerr({red}) returned {tuple(e0.shape)}, documented {wshape}")
             return False
@@ -1476,6 +1553,10 @@ def check_camera(ctx: Ctx, case, jobs: Jobs | None = None) -> bool:
             P3 = p3_keep
         except Exception as e:
             ctx.fail(case, f"camera-raises: pixel2point / point2pixel raise on a valid call: {type(e).__name__}: {str(e)[:120]}")
+            return False
+        if P3.dtype != T or back.dtype != T:
+            ctx.fail(case, f"camera-shape: pixel2point / point2pixel return dtype {P3.dtype} / {back.dtype} for {T} input "
+                           f"(default dtype {torch.get_default_dtype()})")
             return False
         if tuple(P3.shape) != tuple(bsh2) + (n, 3):
             ctx.fail(case, f"camera-shape: pixel2point returned {tuple(P3.shape)}, documented {tuple(bsh2) + (n, 3)}")
@@ -1612,6 +1693,292 @@ def check_homo(ctx: Ctx, case, jobs: Jobs | None = None) -> bool:
     return True
 
 
+def check_seq(ctx: Ctx, case, jobs: Jobs | None = None) -> bool:
+    """a fixed ORDER of calls with the same key (function, shapes, dtype) in different grad modes / process settings:
+    a module-level cache filled under inference_mode / no_grad / another default dtype must not leak into a later call"""
+    for i, st in enumerate(case["steps"]):
+        n0 = len(ctx.failures)
+        good = guarded(ctx, st, jobs)
+        for f in ctx.failures[n0:]:
+            f["case"] = {"stream": "seq", "steps": case["steps"][: i + 1], "N": 2}
+            f["what"] = "sequence-" + f["what"].replace(":", f" (call #{i} of {[q.get('gmode') for q in case['steps'][: i + 1]]}, "
+                                                               f"default64={[bool(q.get('default64')) for q in case['steps'][: i + 1]]}):", 1)
+        if not good:
+            return False
+    return True
+
+
+def gen_seq_cases(r):
+    """same key, modes in several orders; the keys (N, D) are unusual so that they are fresh in the process"""
+    out = []
+    orders = [["inference", "req"], ["nograd", "graph"], ["inference", "param", None], ["req", "inference", "req"],
+              [None, "inference", "graph"], ["subclass", "req"]]
+    nkey = 41
+    for gen in (gen_knn_case, gen_nbr_case, gen_voxel_case, gen_knnf_case, gen_randf_case):
+        for oi, order in enumerate(orders):
+            nkey += 2
+            dtp = ["float32", "float64"][oi % 2]
+            steps = []
+            for gi, gm in enumerate(order):
+                q = dict(N=nkey, pdim=5, extra=2, dtype=dtp, gmode=gm, mag_exp=0, layout=None, kind=["gauss", "blobs", "uniform"][gi % 3],
+                         default64=bool((oi + gi) % 3 == 0), shift=None)
+                if gen is gen_knn_case:
+                    c = gen(r, 60, N2=nkey + 1, alias=False, defaults=False, batch=[], **q)
+                elif gen is gen_voxel_case:
+                    c = gen(r, 60, random=bool(oi % 2), rng_mode="hi", **q)
+                elif gen is gen_knnf_case:
+                    c = gen(r, 60, with_radius=bool(oi % 2), batch=[], k=(lambda n: 3), **q)
+                elif gen is gen_randf_case:
+                    c = gen(r, 60, batch=[], rng_mode="script", **q)
+                else:
+                    c = gen(r, 60, **q)
+                c["perm_seed"] = None
+                steps.append(c)
+            out.append({"stream": "seq", "steps": steps, "N": 2})
+    for oi, order in enumerate(orders):
+        steps = [gen_camera_case(r, gmode=gm, dtype=["float32", "float64"][oi % 2], bp=[7], bk=[], be=[7], n=5, ext=bool(oi % 2),
+                                 layout=None, span=0, default64=bool((oi + gi) % 2)) for gi, gm in enumerate(order)]
+        out.append({"stream": "seq", "steps": steps, "N": 2})
+        out.append({"stream": "seq", "N": 2, "steps": [gen_homo_case(r, gmode=gm, dtype=["float32", "float64"][oi % 2], shape=[11, 5],
+                                                                     layout=None, default64=bool(gi % 2)) for gi, gm in enumerate(order)]})
+    return out
+
+
+# ============================================================================ large sizes (class 19)
+
+def big_ints(seed, M, D, span):
+    g = np.random.default_rng(seed)
+    return g.integers(-span, span, size=(M, D), dtype=np.int64)
+
+
+def check_large(ctx: Ctx, case, jobs: Jobs | None = None) -> bool:
+    """sizes 2^k, 2^k +- 1 up to 2^16 + 1: vectorised exact oracles for the cloud functions, split-consistency
+    (f(x) == cat(f(x[:a]), f(x[a:])), f(x)[i] == f(x[i:i+1])) for the point-wise helpers, the model on a sample incl. the LAST item"""
+    P = pp()
+    fn, M, dtp = case["fn"], case["M"], case["dtype"]
+    T = U.DT[dtp]
+    eps = U.EPS[dtp]
+    tol = 64 * eps
+    seed = case["data_seed"]
+    sc = 2.0 ** -4
+    if fn == "knn":
+        D, k = 3, case["k"]
+        Zn, Zr = big_ints(seed, M, D, 1 << 18), big_ints(seed + 1, 3, D, 1 << 18)
+        # the LAST and the FIRST neighbour are the rank-0 answer of reference 0 / 1 (block boundaries, class 19)
+        far_ = (1 << 21) if case["largest"] else 1
+        Zn[-1], Zn[0] = Zr[0] + far_, Zr[1] - far_
+        nbr, ref = torch.tensor(Zn * sc, dtype=T), torch.tensor(Zr * sc, dtype=T)
+        res = P.knn(ref, nbr, k=k, ord=U.ord_arg(case["ord"]), largest=case["largest"])
+        vals, idx = res.values.double().numpy(), res.indices.numpy()
+        if vals.shape != (3, k) or idx.shape != (3, k) or res.values.dtype != T or res.indices.dtype != torch.int64:
+            ctx.fail(case, f"large-knn: shapes / dtypes {vals.shape} {res.values.dtype} {idx.shape} {res.indices.dtype} for N2={M}, k={k}")
+            return False
+        K = U.pair_keys(Zr, Zn, case["ord"])
+        d = U.keys_to_dist(K, 4, case["ord"])
+        for i in range(3):
+            want = np.sort(d[i])[::-1][:k] if case["largest"] else np.sort(d[i])[:k]
+            sel = idx[i]
+            if len(set(sel.tolist())) != k or sel.min() < 0 or sel.max() >= M:
+                ctx.fail(case, f"large-knn: reference {i}: indices not distinct / out of range for N2={M}, k={k}")
+                return False
+            if not np.all(np.abs(d[i][sel] - want) <= 4 * tol * np.maximum(want, 1e-300)) or \
+                    not np.all(np.abs(vals[i] - d[i][sel]) <= tol * np.maximum(d[i][sel], 1e-300)):
+                j = int(np.argmax(np.abs(d[i][sel] - want)))
+                ctx.fail(case, f"large-knn: reference {i} rank {j}: index {int(sel[j])} at distance {d[i][sel][j]!r}, value {vals[i][j]!r}, "
+                               f"but the rank-{j} distance of the {M} neighbours is {want[j]!r}")
+                return False
+        return True
+    if fn in ("nbr", "knnf"):
+        D = 2
+        Z = big_ints(seed, M, D, case.get("span", 200))
+        X = torch.tensor(Z * sc, dtype=T)
+        K = U.pair_keys(Z, Z, case["ord"])
+        if fn == "nbr":
+            r_int = case["r_half"] / 2.0                 # half-integer radius in lattice units: never hits a distance (ord 1/inf)
+            radius = r_int * sc
+            Tkey = U.radius_key(radius, 4, case["ord"])
+            cnt = (K <= Tkey).sum(1) - 1
+            n = int(np.median(cnt))
+            out, mask = P.nbr_filter(X, n, radius, ord=U.ord_arg(case["ord"]), return_mask=True)
+            want = cnt >= n
+            if mask.dtype != torch.bool or tuple(mask.shape) != (M,) or not np.array_equal(mask.numpy(), want):
+                bad = int(np.argmax(mask.numpy() != want)) if tuple(mask.shape) == (M,) else -1
+                ctx.fail(case, f"large-nbr: N={M}: point {bad} has {int(cnt[bad])} others within {radius!r} (ord={case['ord']}), n={n}, "
+                               f"kept={bool(mask[bad]) if bad >= 0 else None}")
+                return False
+            if out.dtype != T or not torch.equal(out, X[mask]):
+                ctx.fail(case, f"large-nbr: N={M}: output is not points[mask]")
+                return False
+            return True
+        k = case["k"]
+        out = P.knn_filter(X, k, ord=U.ord_arg(case["ord"])).double().numpy()
+        if out.shape != (M, D):
+            ctx.fail(case, f"large-knnf: {out.shape} returned for N={M}")
+            return False
+        order = np.argsort(K, axis=1, kind="stable")[:, : k + 2]
+        Ks = np.take_along_axis(K, order, 1)
+        clean = (Ks[:, k] != Ks[:, k + 1]) if M > k + 1 else np.ones(M, dtype=bool)     # no tie at the cut
+        want = (Z[order[:, : k + 1]] * sc).mean(1)
+        bad = (~(np.abs(out - want) <= (64 + 2 * (k + 1)) * eps * (np.abs(Z).max() * sc))).any(1) & clean
+        if bad.any():
+            i = int(np.argmax(bad))
+            ctx.fail(case, f"large-knnf: N={M}: row {i} is {out[i].tolist()} but the mean of the point and its {k} nearest is {want[i].tolist()}")
+            return False
+        return True
+    if fn == "voxel":
+        D, vd = 4, 3
+        Z = big_ints(seed, M, D, case.get("span", 4096))
+        X = torch.tensor(Z * sc, dtype=T)
+        cell = case["cell"]                               # cell size in lattice units (power of two: exact)
+        vox = [cell * sc * (-1 if (case.get("negmask", 0) >> c_) & 1 else 1) for c_ in range(vd)]
+        q = (Z[:, :vd] - Z[:, :vd].min(0)) // cell
+        keys = q * np.array([(-1 if (case.get("negmask", 0) >> c_) & 1 else 1) for c_ in range(vd)])
+        uk, inv, counts = np.unique(keys, axis=0, return_inverse=True, return_counts=True)
+        inv = inv.reshape(-1)
+        Mv = uk.shape[0]
+        if not case["random"]:
+            out = P.voxel_filter(X, vox)
+            if tuple(out.shape) != (Mv, D) or out.dtype != T:
+                ctx.fail(case, f"large-voxel: {tuple(out.shape)} {out.dtype} returned, the {M} points occupy {Mv} voxels")
+                return False
+            sums = np.zeros((Mv, D))
+            np.add.at(sums, inv, Z * sc)
+            want = sums / counts[:, None]
+            bad = ~(np.abs(out.double().numpy() - want) <= (64 + 2 * counts[:, None]) * eps * (np.abs(Z).max() * sc))
+            if bad.any():
+                j = int(np.argmax(bad.any(1)))
+                ctx.fail(case, f"large-voxel: N={M}: row {j} is {out[j].tolist()} but the centroid of the {int(counts[j])} points of voxel "
+                               f"{uk[j].tolist()} is {want[j].tolist()}")
+                return False
+            return True
+        with U.observe_rng(case["rng_mode"], {"ints": [seed + j for j in range(8)]}):
+            out = P.voxel_filter(X, vox, random=True)
+        if tuple(out.shape) != (Mv, D) or out.dtype != T:
+            ctx.fail(case, f"large-voxel: random=True returned {tuple(out.shape)} {out.dtype}, the {M} points occupy {Mv} voxels")
+            return False
+        Zo = np.rint(out.double().numpy() / sc).astype(np.int64)
+        ko = ((Zo[:, :vd] - Z[:, :vd].min(0)) // cell) * np.array([(-1 if (case.get("negmask", 0) >> c_) & 1 else 1) for c_ in range(vd)])
+        rows = set(map(tuple, Z.tolist()))
+        if not np.array_equal(ko, uk) or any(tuple(r_) not in rows for r_ in Zo.tolist()):
+            j = int(np.argmax((ko != uk).any(1))) if not np.array_equal(ko, uk) else -1
+            ctx.fail(case, f"large-voxel: N={M}, random=True (rng {case['rng_mode']}): row {j} is not a member of voxel {uk[j].tolist() if j >= 0 else '?'}")
+            return False
+        return True
+    if fn == "randf":
+        Z = np.concatenate([big_ints(seed, M, 2, 1 << 18), np.arange(M, dtype=np.int64)[:, None] * 16], 1)
+        X = torch.tensor(Z * sc, dtype=torch.float64 if dtp == "float32" and M > (1 << 20) else T)
+        num = case["num"]
+        with U.observe_rng(case["rng_mode"], None):
+            out = P.random_filter(X, num)
+        if tuple(out.shape) != (num, 3) or out.dtype != X.dtype:
+            ctx.fail(case, f"large-randf: {tuple(out.shape)} {out.dtype} returned for N={M}, num={num}")
+            return False
+        tags = np.rint(out[:, 2].double().numpy()).astype(np.int64)
+        if len(set(tags.tolist())) != num or (num and (tags.min() < 0 or tags.max() >= M)) or not torch.equal(out, X[torch.from_numpy(tags)]):
+            ctx.fail(case, f"large-randf: N={M}, num={num}: output rows are not {num} distinct input points")
+            return False
+        return True
+    # point-wise helpers: split consistency
+    r = random.Random(seed)
+    g = torch.Generator().manual_seed(seed)
+    shape = {"flat": (M,), "lead1": (1, M), "trail1": (M, 1)}[case["shape"]]
+    cuts = [1, M // 2, M - 1] if M > 2 else [1]
+    items = sorted({0, M - 1, r.randrange(M)})
+
+    def split_ok(f, args, name, ulps, mag=None):
+        """args: tensors whose first batch axis (of length M) is cut; returns False after ctx.fail.
+        `mag`: magnitude of the accumulated terms per output element (matmul kernels differ between batch sizes, so a
+        cancelling sum is reproduced to `ulps` eps of its TERMS, not of its value); None = value itself"""
+        ax = 0 if case["shape"] != "lead1" else 1
+        full = f(*args)
+        if isinstance(full, tuple):
+            full = full[0]
+        tl = ulps * eps * (full.double().abs() if mag is None else torch.maximum(mag.double(), full.double().abs()))
+        for a in cuts:
+            parts = [f(*[t_.narrow(ax, 0, a) for t_ in args]), f(*[t_.narrow(ax, a, M - a) for t_ in args])]
+            cat = torch.cat(parts, ax)
+            if cat.shape != full.shape or bool(far(cat.double(), full.double(), tl).any()):
+                j = far(cat.double(), full.double(), tl).nonzero()[0].tolist() if cat.shape == full.shape else "shape"
+                ctx.fail(case, f"large-{name}: {M} items ({case['shape']}): f(x) differs from cat(f(x[:{a}]), f(x[{a}:])) at {j}")
+                return None
+        for i in items:
+            one = f(*[t_.narrow(ax, i, 1) for t_ in args])
+            if bool(far(one.double(), full.narrow(ax, i, 1).double(), tl.narrow(ax, i, 1)).any()):
+                ctx.fail(case, f"large-{name}: {M} items ({case['shape']}): item {i} alone differs from the same item inside the batch")
+                return None
+        return full
+    Kmat = torch.tensor([[lad(r, 0, 3), 0.0, lad(r, 0, 3)], [0.0, lad(r, 0, 3), lad(r, 0, 3)], [0.0, 0.0, 1.0]], dtype=T)
+    pts = (torch.rand(shape + (3,), generator=g, dtype=torch.float64) * 8 - 4).to(T)
+    pts[..., 2] = pts[..., 2].abs() + 0.5
+    mag_uv = (pts.double().abs() @ Kmat.double().abs().mT)[..., :2] / pts.double()[..., 2:].abs()
+    if fn == "p2p":
+        full = split_ok(lambda p_: P.point2pixel(p_.unsqueeze(-2), Kmat).squeeze(-2), [pts], "point2pixel", 8, mag_uv)
+        if full is None:
+            return False
+        if jobs is not None:
+            flat = pts.reshape(-1, 3).double()
+            fl_o = full.reshape(-1, 2).double()
+            for i in items:
+                line = f"c18.api.p2p {dtp} 0 " + common.wire_list(Kmat.double().reshape(-1).tolist() + flat[i].tolist())
+
+                def cb(st, toks, i=i):
+                    mv = nums(toks) if st == "ok" else None
+                    if mv is None or any(sfar(a_, b_, 256 * eps * (abs(a_) + float(Kmat.abs().max()) * 8)) for a_, b_ in zip(mv, fl_o[i].tolist())):
+                        ctx.disagree("large", case, f"point2pixel item {i} of {M}: implementation {fl_o[i].tolist()} model {mv}")
+                jobs.add(1, line, cb)
+        return True
+    if fn == "px2pt":
+        px = (torch.rand(shape + (2,), generator=g, dtype=torch.float64) * 600).to(T)
+        dep = (torch.rand(shape, generator=g, dtype=torch.float64) * 9 + 0.1).to(T)
+        return split_ok(lambda x_, d_: P.pixel2point(x_.unsqueeze(-2), d_.unsqueeze(-1), Kmat).squeeze(-2), [px, dep], "pixel2point", 0) is not None
+    if fn == "reproj":
+        px = (torch.rand(shape + (2,), generator=g, dtype=torch.float64) * 600).to(T)
+        mg = mag_uv + px.double().abs()
+        mg = mg if case["red"] == "none" else mg.sum(-1, keepdim=True)
+        return split_ok(lambda p_, x_: P.reprojerr(p_.unsqueeze(-2), x_.unsqueeze(-2), Kmat, reduction=case["red"])
+                        .reshape(p_.shape[:-1] + (-1,)), [pts, px], "reprojerr", 8, mg) is not None
+    if fn == "homo":
+        h = split_ok(lambda p_: P.cart2homo(p_), [pts], "cart2homo", 0)
+        if h is None:
+            return False
+        wsel = torch.tensor([0.0, -0.0, 1.0, -2.0, U.TINY[dtp], 0.25], dtype=T)[torch.randint(0, 6, shape, generator=g)]
+        hq = torch.cat([pts * 1e-3, wsel.unsqueeze(-1)], -1)
+        return split_ok(lambda p_: P.homo2cart(p_), [hq], "homo2cart", 0) is not None
+    raise ValueError(fn)
+
+
+def gen_large_cases(rng, sizes, per_fn=1):
+    out = []
+    for M in sizes:
+        for _ in range(per_fn):
+            dtp = rng.choice(["float32", "float64"])
+            base = {"stream": "large", "M": M, "dtype": dtp, "data_seed": rng.randrange(1 << 30), "N": M}
+            out.append({**base, "fn": "knn", "k": rng.choice([1, 17, min(M, 1000), min(M, 4097)]), "ord": rng.choice(ORDS),
+                        "largest": rng.random() < 0.3})
+            out.append({**base, "fn": "voxel", "random": False, "cell": rng.choice([64, 256, 1024]), "negmask": rng.choice([0, 0, 5, 7]),
+                        "span": rng.choice([4096, 1 << 16])})
+            out.append({**base, "fn": "voxel", "random": True, "cell": rng.choice([256, 1024]), "negmask": rng.choice([0, 2]),
+                        "rng_mode": rng.choice(["hi", "lo", "script"]), "span": 4096})
+            out.append({**base, "fn": "randf", "num": M, "rng_mode": rng.choice(["real", "hi"])})
+            out.append({**base, "fn": "randf", "num": rng.choice([M - 1, M // 2 + 1]), "rng_mode": rng.choice(["real", "lo"])})
+            out.append({**base, "fn": "voxel", "random": False, "cell": 1 << 14, "negmask": rng.choice([0, 7]), "span": 1 << 14})   # few, crowded voxels
+            for fn in ("p2p", "px2pt", "homo"):
+                out.append({**base, "fn": fn, "shape": rng.choice(["flat", "lead1", "trail1"])})
+            out.append({**base, "fn": "reproj", "shape": rng.choice(["flat", "trail1"]), "red": rng.choice(["none", "sum", "norm"])})
+    return out
+
+
+def gen_large_quadratic(rng, sizes):
+    out = []
+    for M in sizes:
+        dtp = rng.choice(["float32", "float64"])
+        base = {"stream": "large", "M": M, "dtype": dtp, "data_seed": rng.randrange(1 << 30), "N": M}
+        out.append({**base, "fn": "nbr", "ord": rng.choice([1, "inf"]), "r_half": rng.choice([21, 41, 81]), "span": rng.choice([200, 1000])})
+        out.append({**base, "fn": "knnf", "M": M // 2 + 1, "N": M // 2 + 1, "ord": rng.choice(ORDS), "k": rng.choice([1, 3, 16, 17]),
+                    "span": 1 << 16})
+    return out
+
+
 # ============================================================================ case generation
 
 def nbucket(n):
@@ -1629,8 +1996,11 @@ def gen_common(rng, hiN, **over):
          "dtype": rng.choice(["float32", "float64"]), "ord": rng.choice(ORDS), "data_seed": rng.randrange(1 << 30),
          "perm_seed": rng.randrange(1 << 30) if rng.random() < 0.5 else None, "layout": rng.choice(LAYOUTS)}
     c.update({"style": rng.choice(STYLES), "gmode": rng.choice(GMODES), "int_scalars": rng.random() < 0.3,
-              "own_check": rng.random() < 0.35})
+              "own_check": rng.random() < 0.35, "default64": rng.random() < 0.2,
+              "np_scalars": rng.random() < 0.15, "shift": rng.choice([None] * 8 + ["neg", "max0", "zero"])})
     c.update({k_: v for k_, v in over.items() if k_ in c or k_ in ("mag_exp",)})
+    if c["shift"] is not None and c["kind"] == "gauss":
+        c["shift"] = None
     if "mag_exp" not in c:
         c["mag_exp"] = rng.choice(MAGS.get(c["dtype"], [0]))
     if c["dtype"].startswith("int"):
@@ -1764,7 +2134,7 @@ def gen_voxel_case(rng, hiN, **over):
         c["mag_exp"] = rng.choice(VOX_MAGS.get(c["dtype"], [0]))
     c["random"] = over.get("random", rng.random() < 0.4)
     c["rng_mode"] = over.get("rng_mode", rng.choice(["lo", "hi", "hi", "script", "real"])) if c["random"] else None
-    c["vox_form"] = over.get("vox_form", rng.choice(["list", "list", "tuple"]))
+    c["vox_form"] = over.get("vox_form", rng.choice(["list", "list", "tuple", "np32", "np64"]))
     if c["random"] and "dtype" not in over and rng.random() < 0.15:
         c["dtype"], c["mag_exp"], c["gmode"] = rng.choice(["int64", "int32"]), 0, None
     if c["dtype"].startswith("int") and not c["random"]:
@@ -1825,13 +2195,14 @@ def gen_hist_case(rng, nsteps=8):
         pdim = rng.choice([1, 2, 3, 3])
         objs[key] = {"kind": rng.choice(HIST_KINDS), "N": rng.choice([2, 3, 5, 8, 13, 21, 30]), "pdim": pdim,
                      "extra": rng.choice([0, 0, 1, 2]), "dtype": rng.choice(["float32", "float64"]),
-                     "data_seed": rng.randrange(1 << 30), "mag_exp": 0, "bumps": 0}
+                     "data_seed": rng.randrange(1 << 30), "mag_exp": 0, "bumps": 0, "numpy": rng.random() < 0.35}
     if rng.random() < 0.6:      # two objects of the SAME shape and dtype (caches keyed by shape / dtype only)
         objs["B"] = dict(objs["A"], data_seed=rng.randrange(1 << 30), kind=rng.choice(HIST_KINDS))
     sim = {}
 
     def spec_of(o):
-        return {k_: o[k_] for k_ in ("kind", "N", "pdim", "extra", "dtype", "data_seed", "mag_exp")}
+        return {**{k_: o[k_] for k_ in ("kind", "N", "pdim", "extra", "dtype", "data_seed", "mag_exp")},
+                "numpy": o.get("numpy", False)}
 
     def state(key):
         o = objs[key]
@@ -1859,6 +2230,7 @@ def gen_hist_case(rng, nsteps=8):
         o = objs[key]
         N = o["N"]
         spec = spec_of(o)
+        spec["numpy"] = o.get("numpy", False)
         c = {"stream": st, "keep": key, "bump": o["bumps"], "perm_seed": None, "layout": None, "ord": rng.choice(ORDS),
              "style": rng.choice(STYLES), "gmode": None, "int_scalars": rng.random() < 0.3, "own_check": rng.random() < 0.3,
              "obj": dict(spec), **spec}
@@ -2057,7 +2429,8 @@ def gen_camera_case(rng, **over):
          "zmode": rng.choice(["ladder", "plain"]), "data_seed": rng.randrange(1 << 30)}
     c["span"] = rng.choice([0, 0, 0, 3] if c["dtype"] == "float32" else [0, 0, 0, 10, 40])
     c["layout"] = rng.choice([None] * 6 + ["views", "views", "expandK"])
-    c.update({"style": rng.choice(STYLES), "gmode": rng.choice(GMODES), "own_check": rng.random() < 0.35})
+    c.update({"style": rng.choice(STYLES), "gmode": rng.choice(GMODES), "own_check": rng.random() < 0.35,
+              "default64": rng.random() < 0.2})
     c.update(over)
     if c.get("gmode") is not None and c.get("layout") == "expandK":
         c["layout"] = None
@@ -2073,17 +2446,22 @@ def gen_homo_case(rng, **over):
     dtp = over.get("dtype", rng.choice(["float32", "float64"]))
     c = {"stream": "homo", "shape": rng.choice([[1], [2], [3], [4], [7], [2, 3], [5, 2], [2, 1, 4], [3, 2, 2]]),
          "dtype": dtp, "mag": rng.choice(HOMO_MAGS[dtp]), "layout": rng.choice([None, None, "cols"]),
-         "gmode": rng.choice(GMODES), "own_check": rng.random() < 0.35, "data_seed": rng.randrange(1 << 30)}
+         "gmode": rng.choice(GMODES), "own_check": rng.random() < 0.35, "default64": rng.random() < 0.2,
+         "data_seed": rng.randrange(1 << 30)}
     c.update(over)
     return c
 
 
 CHECKS = {"knn": check_knn, "nbr": check_nbr, "voxel": check_voxel, "knnf": check_knnf, "randf": check_randf,
-          "camera": check_camera, "homo": check_homo, "hist": check_hist, "bad": check_bad}
+          "camera": check_camera, "homo": check_homo, "hist": check_hist, "bad": check_bad, "large": check_large, "seq": check_seq}
 
 
 def signature(c):
     st = c["stream"]
+    if st == "large":
+        return ("large", c["fn"], c["M"], c["dtype"], c.get("shape"), c.get("k"), c.get("random"))
+    if st == "seq":
+        return ("seq", tuple((q["stream"], q.get("gmode"), bool(q.get("default64")), q.get("N")) for q in c["steps"]))
     if st == "hist":
         return ("hist", tuple((q["stream"], q["keep"], q.get("bump", 0), q.get("what")) for q in c["steps"]))
     if st in ("camera", "homo"):
@@ -2098,9 +2476,17 @@ def guarded(ctx: Ctx, c, jobs):
     """run one check; a result whose structure cannot even be examined (wrong rank, wrong type, ...) is a failure of
     the implementation on this input, not an infrastructure problem (the unchanged tree never takes this path)"""
     _BASES.clear()
+    old_default = torch.get_default_dtype()
+    _STATE["backward"] = c.get("gmode") in ("req", "graph", "param")
     try:
-        with mode_ctx(c):
-            ok = CHECKS[c["stream"]](ctx, c, jobs)
+        if c.get("default64"):
+            torch.set_default_dtype(torch.float64)      # process-wide setting a user may have made (class 25)
+        try:
+            with mode_ctx(c):
+                ok = CHECKS[c["stream"]](ctx, c, jobs)
+        finally:
+            torch.set_default_dtype(old_default)
+            _STATE["backward"] = False
         for base, snap in _BASES:
             if not torch.equal(torch.nan_to_num(base, nan=1.5), torch.nan_to_num(snap, nan=1.5)):
                 ctx.fail(c, f"{c['stream']}-aliasing: memory outside / behind the view handed in (layout {c.get('layout')}) "
@@ -2121,7 +2507,9 @@ def guarded(ctx: Ctx, c, jobs):
 def run_case(ctx: Ctx, c, jobs):
     st = c["stream"]
     ctx.count(f"{st}")
-    if st not in ("camera", "homo", "hist"):
+    if st == "large":
+        ctx.count(f"large.{c['fn']}")
+    if st not in ("camera", "homo", "hist", "large", "seq"):
         ctx.count(f"{st}.kind.{c['kind']}")
         ctx.count(f"{st}.N.{['1', '2-6', '7-24', '25-70', '71-300'][nbucket(c['N'])]}")
         ctx.count(f"{st}.ord.{c['ord']}")
@@ -2144,9 +2532,9 @@ def run(ctx: Ctx):
     torch.set_num_threads(2)
     jobs = Jobs()
     hiN = 300
-    plan = [("knn", gen_knn_case, ctx.pick(80, 1400)), ("nbr", gen_nbr_case, ctx.pick(90, 1600)),
-            ("voxel", gen_voxel_case, ctx.pick(90, 1600)), ("knnf", gen_knnf_case, ctx.pick(90, 1600)),
-            ("randf", gen_randf_case, ctx.pick(35, 600))]
+    plan = [("knn", gen_knn_case, ctx.pick(50, 1400)), ("nbr", gen_nbr_case, ctx.pick(60, 1600)),
+            ("voxel", gen_voxel_case, ctx.pick(60, 1600)), ("knnf", gen_knnf_case, ctx.pick(60, 1600)),
+            ("randf", gen_randf_case, ctx.pick(25, 600))]
     big_budget = {"knn": ctx.pick(1, 20), "nbr": ctx.pick(1, 20), "voxel": ctx.pick(2, 30), "knnf": ctx.pick(1, 20), "randf": 1000}
     # hand-made corner cases first (docstring clouds with the outliers moved, 1-point clouds, single voxel, ...)
     for c in corner_cases():
@@ -2155,8 +2543,13 @@ def run(ctx: Ctx):
     for c in corpus_cases():
         ctx.count("corpus")
         run_case(ctx, c, jobs if c.get("N", 0) <= 70 and c.get("N2", 0) <= 70 else None)
-    for _ in range(ctx.pick(10, 160)):
+    for _ in range(ctx.pick(8, 160)):
         run_case(ctx, gen_hist_case(rng, rng.choice([5, 8, 11])), jobs)
+    if not ctx.quick:
+        ks = list(range(8, 17))
+        sizes = sorted({(1 << k_) + d_ for k_ in ks for d_ in (-1, 0, 1)})
+        for c in gen_large_cases(rng, rng.sample(sizes, 10)) + gen_large_quadratic(rng, [s_ for s_ in sizes if s_ <= 2049][-9:]):
+            run_case(ctx, c, jobs)
     for name, gen, n in plan:
         nbig = 0
         for _ in range(n):
@@ -2168,9 +2561,9 @@ def run(ctx: Ctx):
                     run_case(ctx, c, None)
                     continue
             run_case(ctx, c, jobs)
-    for _ in range(ctx.pick(80, 1500)):
+    for _ in range(ctx.pick(50, 1500)):
         run_case(ctx, gen_camera_case(rng), jobs)
-    for _ in range(ctx.pick(35, 600)):
+    for _ in range(ctx.pick(25, 600)):
         run_case(ctx, gen_homo_case(rng), jobs)
     jobs.flush(ctx)
 
@@ -2346,6 +2739,74 @@ def corpus_cases():
                     it += 1
                     out.append(gen_voxel_case(r, 40, kind=kind, dtype=dtp, N=[5, 12, 26][it % 3], vox_mode=vm, random=rnd_,
                                               rng_mode=["hi", "lo"][it % 2], mag_exp=0))
+    # ---- pass 4 -------------------------------------------------------------------------------------------------
+    # (19) large sizes: one > 2^14 and one > 2^16 per entry point (O(N) functions), 2^10+1 / 2^11+1 for the O(N^2) ones
+    out += gen_large_cases(r, [16385, 65537]) + gen_large_quadratic(r, [1025, 2049])
+    # (23) grad modes / default dtypes in fixed orders on fresh keys
+    out += gen_seq_cases(r)
+    # (21) user Tensor subclass, (25) default dtype x cloud dtype, (27) numpy scalars / numpy size vectors, per stream
+    for dtp in dts:
+        for d64 in (False, True):
+            for gm, nps in [("subclass", False), (None, True), (None, False), ("req", False)]:
+                it += 1
+                q = dict(dtype=dtp, default64=d64, gmode=gm, mag_exp=0, layout=None, shift=None)
+                cs_ = [gen_knn_case(r, 30, N=6, N2=11, alias=False, defaults=False, batch=[[], [2]][it % 2], ord=ORDS[it % 3], **q),
+                       gen_nbr_case(r, 30, N=9, ord=ORDS[(it + 1) % 3], kind=kinds[it % 6], radius_mode=["hit", "mid", "neg"][it % 3], **q),
+                       gen_knnf_case(r, 30, N=10, ord=ORDS[(it + 2) % 3], with_radius=bool(it % 2), batch=[], kind=kinds[(it + 2) % 6], **q),
+                       gen_voxel_case(r, 30, N=12, random=bool(it % 2), rng_mode="hi", vox_form=["np64", "np32", "list", "tuple"][it % 4],
+                                      kind=kinds[(it + 1) % 6], **q),
+                       gen_randf_case(r, 30, N=8, batch=[[], [2]][it % 2], rng_mode="script", **q),
+                       gen_camera_case(r, dtype=dtp, default64=d64, gmode=gm, span=0, layout=None, ext=bool(it % 2),
+                                       zmode=["tiny", "ladder", "plain"][it % 3]),
+                       gen_homo_case(r, dtype=dtp, default64=d64, gmode=gm, layout=None)]
+                for c_ in cs_:
+                    c_["np_scalars"] = nps
+                out += cs_
+    # (27) one numpy buffer of voxel sizes refilled in place between consecutive calls
+    for vf in ("np64", "np32"):
+        for dtp in dts:
+            out.append({"stream": "seq", "N": 2, "steps": [
+                gen_voxel_case(r, 30, N=10 + j, pdim=3, extra=1, dtype=dtp, kind=kinds[j % 6], vox_form=vf, random=bool(j % 2), rng_mode="lo",
+                               mag_exp=0, gmode=None, layout=None, shift=None, vox_mode=[0.2, 0.6, 0.8, "gap+"][j % 4]) for j in range(5)]})
+    # (20) exact coincidences: k equal to an occurring count, equal / opposite focal lengths, cx == cy, depth exactly +-tiny
+    for dtp in dts:
+        for o in ORDS:
+            it += 1
+            c_ = gen_knnf_case(r, 30, kind=["lattice", "line", "dupes"][it % 3], ord=o, dtype=dtp, N=[7, 12, 20][it % 3], with_radius=True,
+                               radius_mode="hit", mag_exp=0, shift=None, k=(lambda n: 1))
+            X64_ = build_cloud(c_)
+            pd_ = c_["pdim"] if c_["pdim_arg"] is None else c_["pdim_arg"]
+            lo_, hi_, *_ = nbr_oracle(c_, X64_, c_["radius"], o, pd_)
+            occ = sorted({int(v) for v in lo_.tolist() if 0 <= int(v) < c_["N"]})
+            if occ:
+                c_["k"] = occ[it % len(occ)]        # count == k exactly for some points, count == k - 1 / k + 1 for others
+            out.append(c_)
+        for ff in [(2.0, 2.0), (3.0, -3.0), (-1.5, -1.5)]:
+            c_ = gen_camera_case(r, dtype=dtp, span=0, layout=None, ext=False, general_K=False, zmode="tiny", gmode=None)
+            c_["focal"], c_["center_equal"] = list(ff), True
+            out.append(c_)
+            c_ = gen_camera_case(r, dtype=dtp, span=0, layout=None, ext=True, general_K=False, zmode="ladder", gmode=None)
+            c_["focal"], c_["center_equal"] = list(ff), bool(len(out) % 2)
+            out.append(c_)
+    # (26) sign conventions: negative radius (n = 0, -1, 1), every voxel size negative, clouds entirely <= 0 / < 0 / all zero
+    for dtp in dts:
+        for nn_ in (0, -1, 1):
+            it += 1
+            out.append(gen_nbr_case(r, 30, kind=kinds[it % 6], dtype=dtp, N=8, radius_mode="neg", n=nn_, mag_exp=0, shift=None))
+        for wr in (True, False):
+            out.append(gen_knnf_case(r, 30, kind="blobs", dtype=dtp, N=9, with_radius=True, radius_mode="neg", k=(lambda n: 0 if wr else 2),
+                                     mag_exp=0, shift=None))
+        for sh in ("neg", "max0", "zero"):
+            for kind in ["lattice", "blobs", "uniform"]:
+                it += 1
+                q = dict(dtype=dtp, kind=kind, shift=sh, mag_exp=0, N=[5, 10, 16][it % 3])
+                out.append(gen_nbr_case(r, 30, **q))
+                out.append(gen_knnf_case(r, 30, with_radius=bool(it % 2), batch=[], **q))
+                out.append(gen_voxel_case(r, 30, random=bool(it % 2), rng_mode="hi", vox_mode=[0.2, 0.6, "gap-"][it % 3], **q))
+                out.append(gen_knn_case(r, 30, N2=7, alias=False, defaults=False, batch=[], **q))
+                cv = gen_voxel_case(r, 30, random=not bool(it % 2), rng_mode="lo", vox_mode=0.2, **{**q, "shift": None})
+                cv["voxel"] = [-abs(v_) for v_ in cv["voxel"]]          # every size negative
+                out.append(cv)
     for c_ in out:
         c_["own_check"] = True      # (15) every corpus case also checks that results own their memory
         for st_ in c_.get("steps", []):
